@@ -603,9 +603,19 @@ def main(tier):
         return run.finish("proof", (nthm, ndis))
     if os.environ.get("C04_DUMP"):       # triage aid: every violation, not only the first 20 replays
         json.dump(run.violations, open(os.environ["C04_DUMP"], "w"), indent=1)
-    return run.finish("proof", (nthm, ndis),
+    tb = ["Coq 8.16.1 kernel; vm_compute only for the Example witnesses", "axioms under Print Assumptions: " + (", ".join(sorted(axioms)) or "none (Closed under the global context)"),
+          "extraction: ExtrOcamlBasic only; OCaml 4.13.1; the model runs with a 64 MB stack (EXN Stack overflow = no statement)",
+          "lib/modgen.py (generator, independent X.680 tagging), lib/widegen.py, lib/c04_util.py (mutators; BER walker used by the finding predicates)",
+          "harness/moddrv.c + harness/moddrv_c04.inc: exact-size poisoned input buffer, allocation ledger by --wrap=malloc/calloc/realloc/free, ITIMER_VIRTUAL hang guard (2 s CPU)",
+          "gcc 12 -O1 with ASan + UBSan + LSan: memory safety / UB / leaks of the C are OBSERVED on the generated inputs, not proved"]
+    return run.finish("proof", (nthm, ndis), trusted_base=tb,
                       checker_cmd="make -C /verif all && coqc -Q coq A1 coq/Props/Properties_C04.v",
-                      extra_cov={"theorems": names, "modules": len(mods), "wide_modules": len(wmods), "traces_validated_against_impl": run.cov["evaluations"]})
+                      extra_cov={"theorems": names, "modules": len(mods), "wide_modules": len(wmods),
+                                 "rule": "one case = one `d4` command (type, syntax, input octets); inputs are distinct per (type, syntax); mutants of valid DER/UPER/OER/XER encodings (truncation at every offset, tag/length octet bit flips, length forms, re-framings, splice, text damage), random strings, deep-nesting inputs",
+                                 "traces_validated_against_impl": run.cov["evaluations"]},
+                      assumptions=["PARTIAL: the theorems are about the Gallina reference decoders (consumed accounting, bounds, fuel, shape); memory safety, UB-freedom and leak-freedom of the compiled C are observed with sanitizers on the mutated inputs only",
+                                   "the C accepting what the reference rejects (lenient decoding) is counted, not judged; XER and the wide algebra have no model (survival / consistency only)",
+                                   "RC_WMORE on every proper prefix is C05's statement: only counted here"])
 
 
 if __name__ == "__main__":
